@@ -3,6 +3,7 @@ package c20
 import (
 	"errors"
 	"math"
+	"strings"
 )
 
 // ---- weight function families ------------------------------------------
@@ -114,6 +115,12 @@ type recWriter struct {
 	firedOff    int // bytes accepted before it
 	shortN      int // bytes accepted from the faulted write
 	writesAfter int // Write calls after the (first) faulted one
+	// used when the writer is a device below another writer (writers.go)
+	afterReturn      bool // set by the harness once LIB has returned (caller's Flush / Close follow)
+	firedAfterReturn bool // the fault fired in a write made after LIB returned
+	failedCalls      int  // calls that returned a non-nil error
+	viaString        int  // calls that arrived through WriteString
+	viaReadFrom      int  // calls that arrived through ReadFrom
 }
 
 func (w *recWriter) Write(p []byte) (int, error) {
@@ -127,15 +134,19 @@ func (w *recWriter) Write(p []byte) (int, error) {
 			w.fired = true
 			w.firedLen = len(p)
 			w.firedOff = len(w.data)
+			w.firedAfterReturn = w.afterReturn
 			switch w.mode {
 			case modePermanent:
+				w.failedCalls++
 				return 0, errPermanent
 			case modeTransient:
+				w.failedCalls++
 				return 0, errTransient
 			case modeShortErr:
 				k := len(p) / 2
 				w.shortN = k
 				w.data = append(w.data, p[:k]...)
+				w.failedCalls++
 				return k, errShort
 			case modeShortNil:
 				if len(p) == 0 {
@@ -149,6 +160,7 @@ func (w *recWriter) Write(p []byte) (int, error) {
 				return k, nil
 			}
 		} else if w.mode == modePermanent {
+			w.failedCalls++
 			return 0, errPermanent
 		}
 	}
@@ -167,23 +179,50 @@ func sectionOf(sizes []int, ws, es, p int) string {
 	return sectionAt(off, sizes[p], ws, es)
 }
 
-// sectionAt classifies a write of l bytes at byte offset off.
+// sectionAt classifies a write of l bytes at byte offset off of the document by
+// the parts of the document it covers (ws = first byte of the weight section,
+// es = first byte of the EOF line): "header", "weights", "trailer", or several
+// joined by "+" when one write spans a boundary (a library that buffers
+// internally may make a single write of the whole document).  A zero-length
+// write belongs to the part in which it falls.
 func sectionAt(off, l, ws, es int) string {
-	switch {
-	case off < ws:
-		if off+l > ws {
-			return "header+weights" // one write spans the boundary
+	if l == 0 {
+		switch {
+		case off < ws:
+			return "header"
+		case off <= es:
+			return "weights" // zero-length write between the header and EOF (the flush)
 		}
-		return "header"
-	case l == 0 && off <= es:
-		return "weights" // zero-length write between the header and EOF (the flush)
-	case off < es:
-		if off+l > es {
-			return "weights+trailer"
-		}
-		return "weights"
+		return "trailer"
 	}
-	return "trailer"
+	end := off + l
+	r := ""
+	add := func(s string) {
+		if r != "" {
+			r += "+"
+		}
+		r += s
+	}
+	if off < ws {
+		add("header")
+	}
+	if (off < es && end > ws) || (ws == es && off < ws && end > ws) {
+		add("weights")
+	}
+	if end > es {
+		add("trailer")
+	}
+	return r
+}
+
+// coversWeights: the non-triviality rule of the fault planes.
+func coversWeights(sect string) bool { return strings.Contains(sect, "weights") }
+
+// obsCovered counts the parts of the document covered by an injected write.
+func obsCovered(obs func(string, int), prefix, sect string) {
+	for _, part := range strings.Split(sect, "+") {
+		obs(prefix+part, 1)
+	}
 }
 
 // locationOf names the place of write p for violation keys: the section, and
@@ -199,7 +238,7 @@ func locationOf(sizes []int, ws, es int, header string, p int) string {
 
 func locationAt(off, l, ws, es int, header string) string {
 	sect := sectionAt(off, l, ws, es)
-	if sect != "header" && sect != "header+weights" {
+	if sect != "header" {
 		return sect
 	}
 	if off > len(header) {
